@@ -194,7 +194,10 @@ def known_match(known, failure):
             continue
         m = f.get("matcher", {})
         if m.get("kind") == "printed-signature-contains" and failure.get("kind") == m.get("failure_kind") \
-                and m["text"] in failure.get("printed", ""):
+                and m["text"] in failure.get("printed", "").split(" = ")[0]:
+            return f
+        if m.get("kind") == "printed-signature-matches" and failure.get("kind") == m.get("failure_kind") \
+                and re.search(m["regex"], failure.get("printed", "").split(" = ")[0]):
             return f
     return None
 
